@@ -785,7 +785,38 @@ def rule_type_codes(fm, rep, rid='R3'):
                 sw = (bi, sf)
                 break
     if sw is None:
-        rep.unknown(rid, 'type-codes/shape', b0.where(), 'fmt contains no match on self')
+        # table-driven: the code is TABLE[*self as usize] with TABLE a constant array of string literals
+        ev0 = OutEvents(b, T, lambda a: peel(a) == ('param', 2))
+        vals = [a_[1] for bb_ in sorted(ev0.events) for a_ in ev0.events[bb_] if a_[0] == 'val']
+        others_ = [a_ for bb_ in sorted(ev0.events) for a_ in ev0.events[bb_] if a_[0] != 'val']
+        found = None
+        if len(vals) == 1 and not others_:
+            x = vals[0]
+            while x[0] in ('ref', 'deref', 'unsize'):
+                x = x[1]
+            if x[0] == 'index' and x[1][0] == 'const' and x[1][3] and x[2][0] == 'cast' and x[2][4][0] == 'discr' and peel(x[2][4][1]) == ('param', 1):
+                cb = cad.bodies.get(x[1][3])
+                table = None
+                if cb is not None and len(cb.blocks) == 1:
+                    for s_ in cb.blocks[0]['stmts']:
+                        if s_['k'] == 'assign' and s_['rv']['k'] == 'agg' and s_['rv'].get('ak') == 'array' and not s_['place']['p'] and s_['place']['l'] == 0:
+                            table = [o_.get('str') for o_ in s_['rv']['ops']]
+                en = [a_ for p_, a_ in cad.adts.items() if _is_kind_enum(cad, p_)]
+                if table is not None and all(isinstance(s_, str) for s_ in table) and len(en) == 1:
+                    found = {}
+                    for v_ in en[0]['variants']:
+                        d_ = int(v_['discr'])
+                        if 0 <= d_ < len(table):
+                            found[v_['name']] = [table[d_]]
+        if found is None:
+            rep.unknown(rid, 'type-codes/shape', b0.where(), 'fmt contains neither a match on self nor a constant table indexed by the variant')
+            return
+        rep.floor(rid, 'metric kinds with a type code', len(found), 7)
+        for kind, code in KINDS7:
+            rep.sites()
+            got = found.get(kind)
+            ok = got is not None and ''.join(got) == code
+            rep.ob(rid, 'type-code/%s' % kind, ok, b0.where(), '%s -> "%s"' % (kind, code) if ok else '%s is rendered as %s, the protocol code is "%s"' % (kind, got, code))
         return
     dt, edges = sw[1]
     ev_all = OutEvents(b, T, lambda a: peel(a) == ('param', 2))
